@@ -1,7 +1,8 @@
 SPECIFICATION Spec
 CONSTANTS
   Series = {"s1", "s2"}
-  Times = {0, 2, 3, 5}
+  TOff = 0
+  TimesRaw = {0, 2, 3, 5}
   Vals = {1, 2}
   Types = {"f"}
   Apps = {"a1", "a2"}
@@ -11,12 +12,17 @@ CONSTANTS
   Acts = {"NewAppender", "Append", "Commit", "Rollback"}
   Apis = {"v1"}
   Rej = {FALSE}
-  DelRanges = {}
+  DelLo = {}
+  DelHi = {}
   MaxPend = 2
-  MaxOps = 8
+  MaxOps = 7
+  AllowKF = {"KF-C01-2"}
+  KFInitOpts = TRUE
+  KFV1Hist = TRUE
+  Balanced = FALSE
   EmitMode = "class"
 VIEW View
-INVARIANTS C01_Exact InoSorted OohSorted EmitCommitState
+INVARIANTS C01_Exact InoSorted OohSorted
 PROPERTIES C02_OnlyPendingStored
 ACTION_CONSTRAINT Emit
 CHECK_DEADLOCK FALSE
